@@ -139,6 +139,28 @@ Section GrowAct2.
   Notation ORD' := PropSimAct.ORD'.
   Notation GR := PropGrow.GR.
 
+  (* no writing observer listens to valueAboutToChange of p *)
+  Definition NAB (w : world) (p : nat) : Prop :=
+    forall t pos ser label a, owns w p KAbout t -> ~ slot_at w t pos ser (SObs label (Some a)).
+  Lemma NAB_ORDA w p : NAB w p -> PropSimAct2.ORDA w p = [].
+  Proof.
+    intros HN. unfold PropSimAct2.ORDA. destruct (pview w p) as [vq|] eqn:Pv; [|reflexivity]. destruct (ps_about vq) as [t|] eqn:Ea; [|reflexivity].
+    destruct (tview w t) as [[[sl fr] al]|] eqn:Tv; [|reflexivity].
+    assert (Ho : owns w p KAbout t) by (exists vq; auto).
+    unfold PropSimAct2.ord_slotsA. induction (seq 0 (length sl)) as [|x r IH]; cbn [flat_map]; [reflexivity|]. rewrite IH, app_nil_r.
+    unfold PropSimAct2.tgt_of. destruct (nth_error sl x) as [[[ser [label [[[|] tgt]|]|b' l]]|]|] eqn:Hx; try reflexivity.
+    exfalso. apply (HN t x ser label (false, tgt) Ho). exists sl, fr, al. auto.
+  Qed.
+  (* building a tree keeps it *)
+  Lemma NAB_GR w w1 p : GR w w1 -> pinv w1 -> SCB w -> NAB w p -> pview w p <> None -> NAB w1 p.
+  Proof.
+    intros (G1 & G2 & G3 & G4 & G5 & G6 & G7) Hinv1 (Hinv & Hna & Hsi) HN Hex t pos ser label a Ho1 Hs1.
+    pose proof (G5 _ _ _ _ _ Hs1) as Hs. destruct (Hna t pos ser label a Hs) as (tgt & p0 & Ea & Hor).
+    assert (Ho0 : exists k0, owns w p0 k0 t) by (destruct Hor as [Ho|[Ho _]]; eauto). destruct Ho0 as (k0 & Ho0).
+    destruct (pi_owninj _ _ _ _ _ _ _ Hinv1 _ _ _ _ _ Ho1 (G6 _ _ _ Ho0)) as (<- & <-).
+    exact (HN t pos ser label a Ho0 Hs).
+  Qed.
+
   Lemma GR_SCB w w1 : GR w w1 -> pinv w1 -> SCB w -> SCB w1.
   Proof.
     intros (G1 & G2 & G3 & G4 & G5 & G6 & G7) Hinv1 (Hinv & Hna & Hsi). split; [exact Hinv1|]. split.
@@ -179,7 +201,7 @@ Section GrowAct2.
   Qed.
 
   Lemma assign_fresh_b fuel w p pr b xb T w' :
-    SCB w -> COH w -> lookup (w_props w) p = Some pr -> pr_updater pr = None -> pr_about pr = None ->
+    SCB w -> COH w -> lookup (w_props w) p = Some pr -> pr_updater pr = None -> NAB w p ->
     get_bind w b = Some xb -> b_evp xb = 0 -> b_target xb = None -> (forall n, lookup (w_held w) n <> Some b) ->
     abs_tree (b_root xb) = Some T ->
     (forall s, Rel w s -> A.clean T /\ A.consis F1 F2 F3 (A.env s) [] p T /\ (forall p0 lid, In (p0, lid) (A.leaves T) -> values w p0 = Some (A.env s p0))) ->
@@ -253,7 +275,7 @@ Section GrowAct2.
         intros t0 pos ser label act Hs. unfold slot_at in Hs. rewrite T4 in Hs. destruct (Hna t0 pos ser label act Hs) as (tgt & p0 & Ea & Hor).
         exists tgt, p0. split; [exact Ea|]. destruct Hor as [Ho|[Ho (u & Pu & Uu)]]; [left; exact (OW _ _ _ Ho)|right; split; [exact (OW _ _ _ Ho)|]].
         assert (Hne : p0 <> p).
-        { intros ->. destruct Ho as (vv & Evv & Es). unfold pview in Evv. rewrite Hp in Evv. inversion Evv; subst vv. cbn in Es. congruence. }
+        { intros ->. exact (Hab t0 pos ser label act Ho Hs). }
         exists u. split; [|exact Uu]. unfold pview in *. rewrite L4. destruct (Nat.eqb_spec p0 p); [contradiction|exact Pu].
       - intros q x Hx. rewrite IO4 in Hx. destruct (Nat.eqb_spec q p) as [->|]; [|eauto]. inversion Hx; subst x. cbn [bind_with_root b_root]. congruence. }
     destruct (sim_set2 fn rtl (ORD' w4) (PropSimAct2.ORDA w4) fuel w4 p v w' s4 SC4 (conj (fun _ => eq_refl) (fun _ => eq_refl)) Rel4 H) as (SC' & FR' & Rel').
@@ -274,7 +296,9 @@ Section GrowAct2.
     { intros t0 Ht0 _. cbn [s4 A.tr A.env] in *. unfold A.set_tr in Ht0. rewrite Nat.eqb_refl in Ht0. inversion Ht0; subst t0. exact Hden. }
     (* the fresh property p has no valueAboutToChange table: no about-phase *)
     assert (EA : PropSimAct2.ORDA w4 p = []).
-    { unfold PropSimAct2.ORDA, pview. rewrite L4, Nat.eqb_refl. cbn [psigs_of prop_set_updater ps_about pr_about]. rewrite Hab. reflexivity. }
+    { apply NAB_ORDA. intros t0 pos ser label a (vv & Evv & Es) Hs4. unfold slot_at in Hs4. rewrite T4 in Hs4.
+      apply (Hab t0 pos ser label a); [|exact Hs4]. unfold pview in Evv. rewrite L4, Nat.eqb_refl in Evv. inversion Evv; subst vv.
+      exists (psigs_of pr). split; [unfold pview; rewrite Hp; reflexivity|]. rewrite psig_set_updater in Es. exact Es. }
     destruct fuel as [|fuel']; [destruct Rel' as (_ & _ & Q3); cbn in Q3; discriminate Q3|].
     cbn [C2.set2] in *. unfold C2.set_body2 in *. destruct (Z.eqb v (A.env s4 p)) eqn:Ez.
     - apply Z.eqb_eq in Ez. intros q t0 Ht0. destruct (Pre q t0 Ht0) as (A1 & A2 & A3 & A4). repeat split; auto.
@@ -302,6 +326,9 @@ Section GrowAct2.
     destruct (Htree env0 p) as (T & HT & _); [intros p0 v0 E; unfold env0; rewrite E; reflexivity|].
     apply (assign_fresh_b fuel w1n p (prop_new 0%Z) b xb T w' SCn COHn); auto.
     - unfold w1n; cbn [set_props w_props]. apply lookup_bind_same.
+    - (* a freshly created property has no valueAboutToChange table at all *)
+      intros t pos ser label a (vv & Evv & Es) _. unfold pview, w1n in Evv; cbn [set_props w_props] in Evv. rewrite lookup_bind_same in Evv.
+      inversion Evv; subst vv. discriminate Es.
     - intros s (R1 & R2 & R3).
       destruct (Htree (A.env s) p) as (T' & HT' & C' & N' & V').
       { intros p0 v0 E. destruct G as (_ & _ & G3 & _). rewrite <- G3 in E. apply PropGrow.values_lookup in E. destruct E as (pr0 & Hp0 & Ev).
@@ -310,6 +337,48 @@ Section GrowAct2.
       assert (T' = T) by congruence. subst T'. split; [exact C'|]. split; [exact N'|].
       intros p0 lid Hi. specialize (V' p0 lid Hi). assert (Hne : p0 <> p) by (intros ->; congruence).
       unfold values, w1n; cbn [set_props w_props]. rewrite lookup_bind_other by exact Hne. exact V'.
+  Qed.
+
+  (* binding an EXISTING unbound property (it may have readers and observers, but no writing observer of valueAboutToChange) *)
+  Lemma grow_bind_unbound_b fuel w p pr e w' :
+    SCB w -> COH w -> lookup (w_props w) p = Some pr -> pr_updater pr = None -> NAB w p ->
+    step1 fn rtl fuel w (PBind p e MImmediate) = (w', None) -> SCB w' /\ COH w'.
+  Proof.
+    intros HSC HC Hp Hu HN H. pose proof HSC as (Hinv & Hna & Hsi). cbn [step1] in H.
+    destruct (make_binding fn rtl w e MImmediate) as [[w1 b]|x] eqn:Hm; [|discriminate H].
+    destruct (PropGrow.make_binding_grow fn rtl _ _ _ _ Hinv Hm) as (G & Eb & xb & Hxb & Hevp & Htg & Htree).
+    destruct (make_binding_pinv _ _ _ _ _ _ _ Hinv Hm) as (Hinv1 & _ & Hheld).
+    pose proof (PropGrowMore.make_binding_updaters fn rtl _ _ _ _ _ Hinv Hm p) as Eu.
+    assert (Pp : pview w p = Some (psigs_of pr)) by (unfold pview; rewrite Hp; reflexivity). rewrite Pp in Eu. cbn in Eu.
+    destruct (lookup (w_props w1) p) as [pr1|] eqn:Hp1; [|unfold pview in Eu; rewrite Hp1 in Eu; discriminate Eu].
+    assert (Hu1 : pr_updater pr1 = None) by (unfold pview in Eu; rewrite Hp1 in Eu; cbn in Eu; congruence).
+    pose proof (GR_SCB _ _ G Hinv1 HSC) as SC1. pose proof (PropGrow.GR_COH fn _ _ G HC) as COH1.
+    assert (HN1 : NAB w1 p) by (apply (NAB_GR w w1 p G Hinv1 HSC HN); rewrite Pp; discriminate).
+    set (env0 := fun p0 => match values w p0 with Some v => v | None => 0%Z end).
+    destruct (Htree env0 p) as (T & HT & _); [intros p0 v0 E; unfold env0; rewrite E; reflexivity|].
+    apply (assign_fresh_b fuel w1 p pr1 b xb T w' SC1 COH1); auto.
+    intros s (R1 & R2 & R3).
+    destruct (Htree (A.env s) p) as (T' & HT' & C' & N' & V').
+    { intros p0 v0 E. destruct G as (_ & _ & G3 & _). rewrite <- G3 in E. apply PropGrow.values_lookup in E. destruct E as (pr0 & Hp0 & Ev). rewrite <- Ev. apply R1. exact Hp0. }
+    assert (T' = T) by congruence. subst T'. auto.
+  Qed.
+
+  Definition bound_b (w : world) (p : nat) : bool :=
+    match lookup (w_props w) p with Some pr => match pr_updater pr with Some _ => true | None => false end | None => false end.
+  Definition nab_b (w : world) (p : nat) : bool :=
+    match lookup (w_props w) p with
+    | Some pr => match pr_about pr with
+                 | Some t => match get_table w t with
+                             | Some tb => forallb (fun x => match x with Some (_, SObs _ (Some _)) => false | _ => true end) (t_slots tb)
+                             | None => true end
+                 | None => true end
+    | None => true end.
+  Lemma nab_b_sound w p : nab_b w p = true -> NAB w p.
+  Proof.
+    unfold nab_b. intros H t pos ser label a (vv & Evv & Es) (sl & fr & al & Et & En). unfold pview in Evv.
+    destruct (lookup (w_props w) p) as [pr|]; [|discriminate Evv]. inversion Evv; subst vv. cbn in Es. rewrite Es in H.
+    unfold tview in Et. destruct (get_table w t) as [tb|]; [|discriminate Et]. inversion Et; subst sl fr al.
+    rewrite forallb_forall in H. specialize (H _ (nth_error_In _ _ En)). discriminate H.
   Qed.
 
   Lemma grow_reset_b fuel w p w' :
@@ -357,10 +426,64 @@ Section GrowAct2.
       intros q t Ht. cbn [s' A.tr A.env] in *. destruct (Nat.eqb q p); [discriminate Ht|]. destruct (HInv q t Ht) as (A1 & A2 & A3 & _). auto.
   Qed.
 
+  Lemma grow_rebind_b fuel w p pr old e w' :
+    SCB w -> COH w -> lookup (w_props w) p = Some pr -> pr_updater pr = Some old ->
+    step1 fn rtl fuel w (PBind p e MImmediate) = (w', None) -> SCB w' /\ COH w'.
+  Proof.
+    intros HSC HC Hp Hu H. pose proof HSC as (Hinv & Hna & Hsi). cbn [step1] in H.
+    destruct (make_binding fn rtl w e MImmediate) as [[w1 b]|x] eqn:Hm; [|discriminate H].
+    destruct (PropGrow.make_binding_grow fn rtl _ _ _ _ Hinv Hm) as (G & Eb & xb & Hxb & Hevp & Htg & Htree).
+    destruct (make_binding_pinv _ _ _ _ _ _ _ Hinv Hm) as (Hinv1 & _ & Hheld).
+    pose proof (PropGrowMore.make_binding_updaters fn rtl _ _ _ _ _ Hinv Hm p) as Eu.
+    assert (Pp : pview w p = Some (psigs_of pr)) by (unfold pview; rewrite Hp; reflexivity). rewrite Pp in Eu. cbn in Eu.
+    destruct (lookup (w_props w1) p) as [pr1|] eqn:Hp1; [|unfold pview in Eu; rewrite Hp1 in Eu; discriminate Eu].
+    assert (Hu1 : pr_updater pr1 = Some old) by (unfold pview in Eu; rewrite Hp1 in Eu; cbn in Eu; congruence).
+    pose proof (GR_SCB _ _ G Hinv1 HSC) as SC1. pose proof (PropGrow.GR_COH fn _ _ G HC) as COH1.
+    (* the replaced binding goes first: exactly what reset() does *)
+    destruct (destroy_binding w1 old) as [w2 [ex|]] eqn:Hd.
+    { unfold assign_binding in H. rewrite Hp1, Hu1, Hd in H. discriminate H. }
+    assert (Hpr2 : w_props w2 = w_props w1) by (pose proof (PropProofs.destroy_binding_props w1 old) as [E _]; rewrite Hd in E; exact E).
+    assert (Hne : b <> old).
+    { intros ->. assert (P1 : pview w1 p = Some (psigs_of pr1)) by (unfold pview; rewrite Hp1; reflexivity).
+      destruct (pi_upd _ _ _ _ _ _ _ Hinv1 _ _ _ P1 Hu1 (fun z => z)) as (ls & E). unfold bview in E. rewrite Hxb, Htg in E. discriminate E. }
+    assert (Hb2 : get_bind w2 b = Some xb) by (rewrite (PropGrowMore.destroy_binding_get_bind _ _ _ _ Hd b Hne); exact Hxb).
+    rewrite (PropGrowMore.assign_over_bound fn rtl fuel w1 p pr1 old w2 b xb Hp1 Hu1 Hd Hpr2 Hb2) in H.
+    set (wr := set_props w2 (bind_key (w_props w2) p (prop_set_updater pr1 None))) in *.
+    assert (Hreset : step1 fn rtl fuel w1 (PReset p) = (wr, None)).
+    { cbn [step1]. rewrite Hp1, Hu1, Hd. rewrite Hpr2, Hp1. unfold wr. rewrite Hpr2. reflexivity. }
+    destruct (grow_reset_b fuel w1 p wr SC1 COH1 Hreset) as [SCr COHr].
+    assert (Hbr : get_bind wr b = Some xb) by exact Hb2.
+    assert (Hheldr : forall n, lookup (w_held wr) n <> Some b).
+    { pose proof (PropProofs.destroy_binding_props w1 old) as _. intros n. change (w_held wr) with (w_held w2).
+      destruct (destroy_binding_pinvg _ _ _ _ _ _ _ _ _ Hinv1 (fun z => z) Hd) as (_ & _ & _ & _ & _ & _ & E & _). rewrite E. apply Hheld. }
+    assert (Vr : forall q, values wr q = values w1 q).
+    { intros q. unfold values, wr; cbn [set_props w_props]. rewrite lookup_bind, Hpr2. destruct (Nat.eqb_spec q p) as [->|]; [rewrite Hp1; reflexivity|reflexivity]. }
+    set (env0 := fun p0 => match values w p0 with Some v => v | None => 0%Z end).
+    destruct (Htree env0 p) as (T & HT & _); [intros p0 v0 E; unfold env0; rewrite E; reflexivity|].
+    (* the property was bound: no writing observer listens to its valueAboutToChange *)
+    assert (HNr : NAB wr p).
+    { intros t pos ser label a (vv & Evv & Es) Hs.
+      assert (Ho1 : owns w1 p KAbout t).
+      { unfold pview, wr in Evv; cbn [set_props w_props] in Evv. rewrite lookup_bind_same in Evv. inversion Evv; subst vv. rewrite psig_set_updater in Es.
+        exists (psigs_of pr1). split; [unfold pview; rewrite Hp1; reflexivity|exact Es]. }
+      destruct (destroy_binding_pinvg _ _ _ _ _ _ _ _ _ Hinv1 (fun z => z) Hd) as (_ & _ & _ & _ & _ & _ & _ & _ & _ & Hsl & _).
+      assert (Hs1 : slot_at w1 t pos ser (SObs label (Some a))) by (apply Hsl; exact Hs).
+      destruct SC1 as (_ & Hna1 & _). destruct (Hna1 t pos ser label a Hs1) as (tgt & p0 & _ & Hor).
+      destruct Hor as [Hc|[Hab (u & Pu & Uu)]].
+      - destruct (pi_owninj _ _ _ _ _ _ _ Hinv1 _ _ _ _ _ Ho1 Hc) as (_ & E). discriminate E.
+      - destruct (pi_owninj _ _ _ _ _ _ _ Hinv1 _ _ _ _ _ Ho1 Hab) as (E & _). subst p0. unfold pview in Pu. rewrite Hp1 in Pu. inversion Pu; subst u. cbn in Uu. congruence. }
+    apply (assign_fresh_b fuel wr p (prop_set_updater pr1 None) b xb T w' SCr COHr); auto.
+    - unfold wr; cbn [set_props w_props]. apply lookup_bind_same.
+    - intros s (R1 & R2 & R3).
+      destruct (Htree (A.env s) p) as (T' & HT' & C' & N' & V').
+      { intros p0 v0 E. destruct G as (_ & _ & G3 & _). rewrite <- G3, <- Vr in E. apply PropGrow.values_lookup in E. destruct E as (pr0 & Hp0 & Ev). rewrite <- Ev. apply R1. exact Hp0. }
+      assert (T' = T) by congruence. subst T'. split; [exact C'|]. split; [exact N'|]. intros p0 lid Hi. rewrite Vr. exact (V' p0 lid Hi).
+  Qed.
+
   Definition grow_act2_op (w : world) (o : op) : Prop :=
     match o with
     | PNew _ _ => True
-    | PBind p _ MImmediate => lookup (w_props w) p = None
+    | PBind p _ MImmediate => lookup (w_props w) p = None \/ (unbound_b w p = true /\ nab_b w p = true) \/ bound_b w p = true
     | PReset _ => True
     | _ => act2_op w o
     end.
@@ -369,7 +492,11 @@ Section GrowAct2.
   Proof.
     intros HSC HC Ho H. destruct o; cbn [grow_act2_op] in Ho; try (exact (act2_step fuel w _ w' HSC HC Ho H)).
     - (* PNew *) cbn [step1] in H. destruct (lookup (w_props w) p) eqn:Hp; [discriminate H|]. inversion H; subst w'. apply grow_new_b; assumption.
-    - (* PBind *) destruct m; [|destruct Ho]. apply (grow_bind_b fuel w p e w'); assumption.
+    - (* PBind *) destruct m; [|destruct Ho]. destruct Ho as [Ho|[[Hub Hnb]|Hbd]]; [apply (grow_bind_b fuel w p e w'); assumption| |].
+      + unfold unbound_b in Hub. destruct (lookup (w_props w) p) as [pr|] eqn:Hp; [|discriminate Hub]. destruct (pr_updater pr) eqn:Hu; [discriminate Hub|].
+        apply (grow_bind_unbound_b fuel w p pr e w' HSC HC Hp Hu (nab_b_sound w p Hnb) H).
+      + unfold bound_b in Hbd. destruct (lookup (w_props w) p) as [pr|] eqn:Hp; [|discriminate Hbd]. destruct (pr_updater pr) as [old|] eqn:Hu; [|discriminate Hbd].
+        apply (grow_rebind_b fuel w p pr old e w' HSC HC Hp Hu H).
     - (* PReset *) apply (grow_reset_b fuel w p w'); assumption.
   Qed.
 
